@@ -702,12 +702,13 @@ Section Passes.
     obind (lib_pass en (efindall a_node libnode) [] [] false) (fun r =>
     let '(en', loaded, pending, progress) := r in lib_retry (S (length pending)) en' loaded pending progress).
 
-  (* visual_scene: a local scope of the top-level nodes that have an id (first definition wins) *)
-  Fixpoint scene_pass (en : env) (todo : list et) (loaded : list nview) (pending : list et) (progress : bool)
-    : outcome (env * list nview * list et * bool) :=
+  (* visual_scene: a local scope of the top-level nodes that have an id (first definition wins);
+     every loaded node remembers its position, the result is in document order (since /repo c91a4c8) *)
+  Fixpoint scene_pass (en : env) (todo : list (nat * et)) (loaded : list (nat * nview)) (pending : list (nat * et))
+           (progress : bool) : outcome (env * list (nat * nview) * list (nat * et) * bool) :=
     match todo with
     | [] => Ok (en, loaded, pending, progress)
-    | n :: r =>
+    | (pos, n) :: r =>
         match node_loader en n with
         | Ok v =>
             let loc := match nview_id v with
@@ -718,14 +719,14 @@ Section Passes.
                        | _ => e_local en
                        end in
             let en' := mkEnv (e_num en) (e_geoms en) (e_ctrls en) (e_lights en) (e_cams en) (e_mats en) (e_nodes en) loc in
-            scene_pass en' r (loaded ++ [v]) pending true
-        | Raise PyOther => scene_pass en r loaded (pending ++ [n]) progress
+            scene_pass en' r (loaded ++ [(pos, v)]) pending true
+        | Raise PyOther => scene_pass en r loaded (pending ++ [(pos, n)]) progress
         | Raise x => Raise x
         end
     end.
 
-  Fixpoint scene_retry (fuel : nat) (en : env) (loaded : list nview) (pending : list et) (progress : bool)
-    : outcome (list nview) :=
+  Fixpoint scene_retry (fuel : nat) (en : env) (loaded : list (nat * nview)) (pending : list (nat * et)) (progress : bool)
+    : outcome (list (nat * nview)) :=
     match pending with
     | [] => Ok loaded
     | _ =>
@@ -738,12 +739,21 @@ Section Passes.
       else Raise DaeBrokenRef
     end.
 
+  (* sorted(nodes, key=position): stable insertion sort *)
+  Fixpoint insert_pos (x : nat * nview) (l : list (nat * nview)) : list (nat * nview) :=
+    match l with
+    | [] => [x]
+    | y :: r => if Nat.ltb (fst x) (fst y) then x :: y :: r else y :: insert_pos x r
+    end.
+  Definition sort_pos (l : list (nat * nview)) : list (nat * nview) := fold_left (fun acc x => insert_pos x acc) l [].
+
   Definition load_scene (en : env) (s : et) : outcome (option aval * N * list nview) :=
     let en0 := mkEnv (e_num en) (e_geoms en) (e_ctrls en) (e_lights en) (e_cams en) (e_mats en) (e_nodes en) [] in
-    obind (scene_pass en0 (efindall a_node s) [] [] false) (fun r =>
+    let nodes := efindall a_node s in
+    obind (scene_pass en0 (combine (seq 0 (length nodes)) nodes) [] [] false) (fun r =>
     let '(en', loaded, pending, progress) := r in
     obind (scene_retry (S (length pending)) en' loaded pending progress) (fun nodes =>
-    Ok (eattr a_id s, euid s, nodes))).
+    Ok (eattr a_id s, euid s, map snd (sort_pos nodes)))).
 End Passes.
 
 (* ------------------------------------------------------------------ controllers, animations *)
